@@ -81,6 +81,14 @@ Proof.
 Qed.
 Print Assumptions C12_seq_visits_reachable.
 
+(** The fuel [check_case] runs the sequential walk with is enough, for every
+    graph (cycles included), configuration and flag setting: the recursion never
+    stops for lack of fuel. *)
+Theorem C12_seq_fuel_enough : forall fl g cf root,
+  exists r, seqw (fuel_seq g cf) fl g cf root root 0 init_core [] = Some r.
+Proof. exact fuel_seq_enough. Qed.
+Print Assumptions C12_seq_fuel_enough.
+
 (** Error handlers and OnMissing callbacks receive the CID of the block that
     actually failed: in EVERY state of EVERY schedule (repaired walk), a callback
     invocation names a node whose fetch fails, and OnMissing one that is missing. *)
